@@ -368,6 +368,12 @@ func genWire(r *Rand, g GenCfg) Plan {
 					}
 					add(XStep{Op: "byz", Tok: t, Field: f, How: "range", Val: v})
 				}
+				if f == "pol" && !all {
+					// integers inside selectors (9 numbers x 6 places)
+					for v := 32; v < 32+54; v++ {
+						add(XStep{Op: "byz", Tok: t, Field: f, How: "range", Val: v})
+					}
+				}
 			}
 			for v := 0; v < 3; v++ {
 				add(XStep{Op: "byz", Tok: t, Field: "nonce", How: "nonce_len", Val: v})
